@@ -445,6 +445,14 @@ class TSPkoptEnv(ImprovementEnvBase):
             == solution.data.sort(1)[0]
         ).all(), "Not visiting all nodes"
 
+        # the successor list has to be one cycle through all nodes, not several sub-tours
+        visited = torch.zeros_like(solution, dtype=torch.bool)
+        cur = torch.zeros((batch_size, 1), dtype=torch.long, device=solution.device)
+        for _ in range(graph_size):
+            cur = solution.gather(1, cur)
+            visited.scatter_(1, cur, True)
+        assert visited.all(), "Solution is not a single tour"
+
     def get_mask(self, td):
         # return mask that is 1 if the corresponding action is feasible, 0 otherwise
         visited_time = td["visited_time"]
